@@ -61,7 +61,15 @@ def mutate_bytes(draw, b: bytes) -> bytes:
 
 @st.composite
 def run_cases(draw):
-    kind = draw(st.sampled_from(["gen", "gen", "gen", "gen_mut", "bytes"]))
+    kind = draw(st.sampled_from(["gen", "gen", "gen", "gen_mut", "bytes", "sens", "sens"]))
+    if kind == "sens":
+        # flag-sensitive constructs (operands around the LIMITS sizes, nested guards, ...) with every restriction flag
+        r = ora().call(kind="gen", tape=draw(TAPES), what="program_sensitive")
+        if r["kind"] == "Ok":
+            prog, env = bytes.fromhex(r["value_hex"]), bytes.fromhex(r["err_node"])
+            fl = draw(st.one_of(st.just(r["cost"]), st.sampled_from([0x40, 0x40 | MEMPOOL, 0x200, 0x10, 0x1, 0x2, MEMPOOL, 0x2040, 0x2000 | MEMPOOL]), st.lists(st.sampled_from(DEFINED), max_size=6).map(lambda l: sum(set(l)))))
+            return (prog, env, draw(COSTS), fl)
+        kind = "gen"
     if kind == "bytes":
         r1 = ora().call(kind="gen", tape=draw(TAPES), what="bytes")
         r2 = ora().call(kind="gen", tape=draw(TAPES), what="bytes")
